@@ -4,6 +4,7 @@ package structures
 
 import (
 	"encoding/binary"
+	"io"
 
 	"github.com/scigolib/hdf5/internal/core"
 	"github.com/scigolib/hdf5/internal/vrt"
@@ -149,11 +150,7 @@ func (m *verifMem) ReadAt(p []byte, off int64) (int, error) {
 	return n, nil
 }
 
-type verifErr string
-
-func (e verifErr) Error() string { return string(e) }
-
-const verifEOF = verifErr("EOF")
+var verifEOF = io.EOF
 
 func verifHeapID7(id uint64) [7]byte {
 	var b [7]byte
